@@ -34,6 +34,9 @@ Proof.
     destruct (Nat.eqb c c0 && Nat.ltb c (length (conds s)))%bool eqn:E; [|apply (w_cf W)].
     apply andb_prop in E as [E _]. apply Nat.eqb_eq in E. subst c0.
     intros H. rewrite Ec. destruct (Hin f H) as [H0|H0]; [apply (w_cf W c f H0)|exact H0].
+  - intros t fr c0 Hh Ec0. pose proof (w_cw W t fr c0 Hh Ec0) as Hck. unfold cok in *.
+    rewrite getc_setc. destruct (Nat.eqb c c0 && Nat.ltb c (length (conds s)))%bool eqn:E; [|exact Hck].
+    apply andb_prop in E as [E _]. apply Nat.eqb_eq in E. subst c0. rewrite Ec. exact Hck.
 Qed.
 
 Lemma cond_qwf ne X R s c : Inv s -> WIx ne X R s -> qwf (cpq (getc s c)).
@@ -104,10 +107,56 @@ Lemma acq_frames_app (frs P : list frame) :
   forall l f had, In (InAcquireP l f had) (frs ++ P) <-> In (InAcquireP l f had) P.
 Proof. intros H l f had. rewrite in_app_iff. split; [intros [A|A]; [destruct (H _ _ _ A)|auto]|auto]. Qed.
 
+(* frames that may be pushed on the runner's stack without further obligations *)
+Definition calm (fr : frame) : bool :=
+  match fr with InAcquireP _ _ _ | InCondWaitP _ _ | InCondWaitI _ _ => false | _ => true end.
+Definition noacqp (frs : list frame) : Prop :=
+  (forall l f had, ~ In (InAcquireP l f had) frs) /\ (forall fr c, cwait fr = Some c -> ~ In fr frs).
+(* ... or whose conditions have an existing lock *)
+Definition pushok (s : st) (frs : list frame) : Prop :=
+  (forall l f had, ~ In (InAcquireP l f had) frs) /\
+  (forall fr c, cwait fr = Some c -> In fr frs -> cok s c).
+
+Lemma inert_noacqp frs : Forall (fun fr => calm fr = true) frs -> noacqp frs.
+Proof.
+  intros H. rewrite Forall_forall in H. split.
+  - intros l f had Hin. specialize (H _ Hin). discriminate.
+  - intros fr c Ec Hin. specialize (H _ Hin). destruct fr; simpl in *; discriminate.
+Qed.
+Lemma noacqp_pushok s frs : noacqp frs -> pushok s frs.
+Proof. intros [A B]. split; auto. intros fr c Ec Hin. destruct (B fr c Ec Hin). Qed.
+
+Lemma WI_push ne X t frs P s :
+  pushok s frs -> t < length (tasks s) -> WIx ne X (t, P) s -> WIx ne X (t, frs ++ P) s.
+Proof.
+  intros [Ha Hc] Ht W.
+  assert (H1 : forall t0 l f had, hasfr s (t, frs ++ P) t0 (InAcquireP l f had) <->
+                                 hasfr s (t, P) t0 (InAcquireP l f had)).
+  { intros t0 l f had. unfold hasfr. simpl. rewrite in_app_iff. split; [|tauto].
+    intros [H|[E [H|H]]]; auto. destruct (Ha _ _ _ H). }
+  constructor.
+  - apply (w_nodup W).
+  - apply (w_objs W).
+  - apply (w_range W).
+  - apply (w_wait W).
+  - apply (w_one W).
+  - intros t0 l f had Hh. apply H1 in Hh. apply (w_frame W _ _ _ _ Hh).
+  - intros l f u Hin. destruct (w_row W l f u Hin) as (t0 & had & Hh). exists t0, had. now apply H1.
+  - intros _. exact Ht.
+  - apply (w_necont W).
+  - apply (w_newait W).
+  - apply (w_key W).
+  - apply (w_cq W).
+  - apply (w_cd W).
+  - apply (w_cf W).
+  - intros t0 fr c [Hh|[E Hh]] Ec; [apply (w_cw W t0 fr c (or_introl Hh) Ec)|]. simpl in E, Hh.
+    apply in_app_or in Hh as [Hh|Hh]; [eapply Hc; eauto|].
+    apply (w_cw W t0 fr c); [right; simpl; split; auto|exact Ec].
+Qed.
+
 Lemma WI_push_inert ne X t frs P s :
-  (forall l f had, ~ In (InAcquireP l f had) frs) -> t < length (tasks s) ->
-  WIx ne X (t, P) s -> WIx ne X (t, frs ++ P) s.
-Proof. intros H Ht. apply WI_frames; [now apply acq_frames_app|auto]. Qed.
+  noacqp frs -> t < length (tasks s) -> WIx ne X (t, P) s -> WIx ne X (t, frs ++ P) s.
+Proof. intros H. apply WI_push. now apply noacqp_pushok. Qed.
 
 Theorem acquire_start_W ne s t l P :
   Inv s -> t < length (tasks s) -> WI ne (t, P) s ->
@@ -120,7 +169,7 @@ Proof.
     revert W1 Ht1. unfold acquire_a_start. destruct (_ && _)%bool; cbn [fst snd push]; auto.
     change (new_future s None) with (fst (new_future s None), length (futs s)). cbv beta iota. cbn [fst snd push].
     intros W1 Ht1. apply (WI_push_inert ne _ t [InFut _; InAcquireA l _]); auto.
-    intros l0 f0 h0 [H|[H|[]]]; discriminate.
+    apply inert_noacqp. repeat constructor.
 Qed.
 
 Lemma reacquire_W ne s t c pc err body P :
@@ -132,9 +181,11 @@ Proof.
   destruct (acquire_start_ext s t (clock (getc s c)) I Ht) as [E _].
   destruct (acquire_start s t (clock (getc s c))) as [s1 r]. cbn [fst snd] in *.
   destruct r as [[v|e]|y frs]; cbn [fst snd push] in *; auto.
-  eapply WI_frames; [| |exact W1].
+  eapply WI_frames; [| | |exact W1].
   - intros l f had. rewrite <- app_assoc, !in_app_iff. simpl.
     split; intros [H|H]; auto. destruct H as [[H|[]]|H]; auto. destruct pc; discriminate.
+  - intros fr c0 Ec. rewrite <- app_assoc, !in_app_iff. simpl.
+    intros [H|[[H|[]]|H]]; auto. rewrite <- H in Ec. destruct pc; discriminate.
   - intros _. pose proof (ext_tasks _ _ E). lia.
 Qed.
 
@@ -152,19 +203,55 @@ Proof.
 Qed.
 
 (* ------------------------------------------------------------ lib_call *)
-Definition noacqp (frs : list frame) : Prop := forall l f had, ~ In (InAcquireP l f had) frs.
+Lemma interruptor_calm fuel : forall s b i y frs,
+  snd (interruptor fuel s b i) = LSusp y frs -> Forall (fun fr => calm fr = true) frs.
+Proof.
+  induction fuel as [|fuel IH]; intros s b i y frs; cbn [interruptor]; [discriminate|].
+  destruct (Nat.leb 3 i); [discriminate|].
+  destruct (negb (bactive (getb s b))); [apply IH|].
+  unfold task_interrupt_start.
+  destruct (task_throw s (btask (getb s b)) (ETimeoutInt b)) as [s1 r]. destruct r as [v|e].
+  - destruct (task_reinsert s1 (btask (getb s b)) 0) as [s2 r2]. destruct r2 as [v2|e2]; cbn [snd].
+    + intros H. inversion H; subst. repeat constructor.
+    + destruct e2; try discriminate. destruct (Nat.eqb i 2); [discriminate|].
+      intros H. inversion H; subst. repeat constructor.
+  - cbn [snd]. destruct e; try discriminate. destruct (Nat.eqb i 2); [discriminate|].
+    intros H. inversion H; subst. repeat constructor.
+Qed.
 
-Lemma inert_noacqp frs : Forall (fun fr => inert fr = true) frs -> noacqp frs.
-Proof. intros H l f had Hin. rewrite Forall_forall in H. specialize (H _ Hin). discriminate. Qed.
+Lemma task_interrupt_start_calm s t e y frs :
+  snd (task_interrupt_start s t e) = LSusp y frs -> Forall (fun fr => calm fr = true) frs.
+Proof.
+  unfold task_interrupt_start. destruct (task_throw s t e) as [s1 r]. destruct r; [|discriminate].
+  destruct (task_reinsert s1 t 0) as [s2 r2]. destruct r2; [|discriminate]. cbn.
+  intros H. inversion H; subst. repeat constructor.
+Qed.
 
 Ltac nf_tac :=
   let y := fresh "y" in let frs := fresh "frs" in let Hy := fresh "Hy" in
-  intros y frs Hy; try discriminate; inversion Hy; subst; apply inert_noacqp; repeat constructor.
+  intros y frs Hy; try discriminate; inversion Hy; subst; try apply noacqp_pushok; apply inert_noacqp; repeat constructor.
 
 Lemma fin_wk ne R s s' (r : lres) :
   WI ne R s -> wk s s' -> (forall y frs, r = LSusp y frs -> noacqp frs) ->
-  WI ne R s' /\ (forall y frs, r = LSusp y frs -> noacqp frs).
-Proof. intros W K H. split; auto. eapply WI_wk; eauto. Qed.
+  WI ne R s' /\ (forall y frs, r = LSusp y frs -> pushok s' frs).
+Proof.
+  intros W K H. split; [eapply WI_wk; eauto|]. intros y frs Hy. apply noacqp_pushok. eauto.
+Qed.
+
+Lemma cok_setc s c cd c0 : clock cd = clock (getc s c) -> cok s c0 -> cok (setc s c cd) c0.
+Proof.
+  intros Ec Hck. unfold cok in *. rewrite getc_setc.
+  destruct (Nat.eqb c c0 && Nat.ltb c (length (conds s)))%bool eqn:E; [|exact Hck].
+  apply andb_prop in E as [E _]. apply Nat.eqb_eq in E. subst c0. rewrite Ec. exact Hck.
+Qed.
+
+Lemma pushok_wait s c f fr :
+  cwait fr = Some c -> cok s c -> pushok s [InFut f; fr].
+Proof.
+  intros Ec Hck. split.
+  - intros l0 f0 h0 [H|[H|[]]]; [discriminate|]. subst fr. discriminate.
+  - intros fr0 c0 Ec0 [H|[H|[]]]; subst fr0; [discriminate|]. congruence.
+Qed.
 
 (* the calls that change the held locks or the priority of the calling task *)
 Definition touches_own (op : libop) : bool :=
@@ -174,7 +261,7 @@ Theorem lib_call_core ne t op s R :
   Inv s -> op_safe s op -> needs_task op = false ->
   (ne = true -> touches_own op = true -> forall l f, ~ In (f, t) (rows s l)) -> WI ne R s ->
   WI ne R (fst (lib_call t op s)) /\
-  (forall y frs, snd (lib_call t op s) = LSusp y frs -> noacqp frs).
+  (forall y frs, snd (lib_call t op s) = LSusp y frs -> pushok (fst (lib_call t op s)) frs).
 Proof.
   intros I Hs Hn Hnr W. destruct op; cbn [lib_call]; try discriminate Hn.
   - (* OLog *) apply (fin_wk _ _ s); auto; [apply wk_core; reflexivity|nf_tac].
@@ -237,7 +324,11 @@ Proof.
       destruct (release s1 t (clock (getc s c))) as [s2 rr]. cbn [fst snd] in *.
       assert (Eg : getc s2 c = getc s c) by (unfold getc; now rewrite Hc2).
       destruct rr as [v|e].
-      * cbn [fst snd]. split; [|nf_tac].
+      * assert (Hck2 : cok s2 c) by (unfold cok; rewrite Eg, Hnl2; exact Hcl).
+        cbn [fst snd]. split.
+        2:{ intros y0 frs0 Hy. inversion Hy; subst. apply (pushok_wait _ c); [reflexivity|].
+            match goal with |- cok (setf ?S _ _) _ => change (cok S c) end.
+            apply cok_setc; [reflexivity|exact Hck2]. }
         eapply WI_wk; [apply wk_setf_flag; reflexivity|].
         assert (Hfresh : ~ In f (pq_objs (cpq (getc s2 c)))).
         { rewrite Eg. intros H. destruct (w_cf W c f (or_introl H)) as (Hr & _). unfold f in Hr. lia. }
@@ -260,9 +351,15 @@ Proof.
       change (new_future s1 None) with (fst (new_future s1 None), length (futs s1)). cbv beta iota.
       set (f := length (futs s1)). set (s2 := fst (new_future s1 None)).
       pose proof (WI_wk _ _ _ _ _ (wk_new_future s1 None) W1) as W2. fold s2 in W2.
-      cbn [fst snd]. split; [|nf_tac].
-      eapply WI_wk; [apply wk_setf_flag; reflexivity|].
       assert (Ec : clock (getc s1 c) = clock (getc s c)) by (unfold getc; now rewrite Hc1).
+      assert (Hck2 : cok s2 c).
+      { unfold cok. change (getc s2 c) with (getc s1 c). change (locks s2) with (locks s1).
+        rewrite Ec, Hnl1. exact Hcl. }
+      cbn [fst snd]. split.
+      2:{ intros y0 frs0 Hy. inversion Hy; subst. apply (pushok_wait _ c); [reflexivity|].
+          match goal with |- cok (setf ?S _ _) _ => change (cok S c) end.
+          apply cok_setc; [reflexivity|exact Hck2]. }
+      eapply WI_wk; [apply wk_setf_flag; reflexivity|].
       assert (Hc2 : getc s2 c = getc s1 c) by reflexivity.
       assert (Hl2 : locks s2 = locks s1) by reflexivity.
       assert (Hlen2 : length (futs s2) = S (length (futs s1))) by apply new_future_len.
@@ -303,7 +400,7 @@ Proof.
     apply (fin_wk _ _ s); auto. nf_tac.
   - (* OTaskInterrupt *)
     apply (fin_wk _ _ s); auto; [apply wk_task_interrupt_start|].
-    intros y frs Hy. apply inert_noacqp. eapply task_interrupt_start_inert; eauto.
+    intros y frs Hy. apply inert_noacqp. eapply task_interrupt_start_calm; eauto.
   - (* OTimeoutEnter *)
     destruct d as [d|]; [|apply (fin_wk _ _ s); auto; [apply wk_refl|nf_tac]].
     pose proof (wk_call_at s (Qplus (now s) d) (HTrigger (length (blocks s)))) as K.
@@ -313,7 +410,7 @@ Proof.
     cbn [fst snd]. apply (fin_wk _ _ s); auto; [|nf_tac].
     eapply wk_trans; [|apply wk_cancel_handle]. apply wk_core; reflexivity.
   - (* OInterruptor *)
-    pose proof (wk_interruptor 4 s b 0) as K. pose proof (interruptor_inert 4 s b 0) as Hi.
+    pose proof (wk_interruptor 4 s b 0) as K. pose proof (interruptor_calm 4 s b 0) as Hi.
     destruct (interruptor 4 s b 0) as [s1 r]. cbn [fst snd] in *.
     pose proof (interruptor_wrap_fst s1 r) as E. pose proof (interruptor_wrap_snd s1 r) as E2.
     destruct (interruptor_wrap s1 r) as [s2 r2]. cbn [fst snd] in *. subst s2.
@@ -342,7 +439,7 @@ Proof.
     destruct (lib_call_ext t op s I Hs (fun _ => Ht)) as [E _].
     destruct (lib_call t op s) as [s1 r]. cbn [fst snd] in *.
     destruct r as [rep|y frs]; cbn [push]; [exact W1|].
-    apply WI_push_inert; auto; [eapply Hf; eauto|pose proof (ext_tasks _ _ E); lia].
+    apply WI_push; auto; [eapply Hf; eauto|pose proof (ext_tasks _ _ E); lia].
 Qed.
 
 (* ------------------------------------------------------------ frame_resume *)
@@ -417,7 +514,7 @@ Proof.
     destruct inp as [v|e]; [exact W|]. destruct (is_cancel e); [apply reacquire_W; auto|exact W].
   - (* InIntr *)
     destruct inp as [v|e].
-    + pose proof (wk_interruptor 4 s b (S i)) as K. pose proof (interruptor_inert 4 s b (S i)) as Hi.
+    + pose proof (wk_interruptor 4 s b (S i)) as K. pose proof (interruptor_calm 4 s b (S i)) as Hi.
       destruct (interruptor 4 s b (S i)) as [s1 r]. cbn [fst snd] in *.
       pose proof (interruptor_wrap_fst s1 r) as E. pose proof (interruptor_wrap_snd s1 r) as E2.
       destruct (interruptor_wrap s1 r) as [s2 r2]. cbn [fst snd] in *. subst s2.
@@ -441,8 +538,9 @@ Qed.
 (* ------------------------------------------------------------ resume_stack *)
 Lemma WI_drop ne X t fr rest s : is_acq fr = false -> WIx ne X (t, fr :: rest) s -> WIx ne X (t, rest) s.
 Proof.
-  intros Ha W. eapply WI_frames; [| |exact W].
+  intros Ha W. eapply WI_frames; [| | |exact W].
   - intros l f had. simpl. split; auto. intros [H|H]; auto. subst fr. discriminate.
+  - intros fr0 c _ H. now right.
   - intros _. apply (w_rt W). simpl. discriminate.
 Qed.
 
